@@ -11,6 +11,8 @@
 (*           | [k |-> "eq", a, b, y, n |-> content]             {{#ifeq:..}} *)
 (*           | [k |-> "sw", v |-> content, cases |-> Seq([key |-> text,     *)
 (*                   val |-> content]), hasDflt, dflt |-> content]          *)
+(*           | [k |-> "l",  args |-> Seq(content)]              [[a|b|...]] *)
+(*           | [k |-> "x",  c |-> content]                      [http://x.y c] *)
 (*   arg     = [named |-> BOOLEAN, key |-> content, val |-> content]        *)
 (*   library : template name -> Seq(segment),                               *)
 (*   segment = [w |-> "plain"|"noinclude"|"includeonly"|"onlyinclude"|      *)
@@ -83,7 +85,8 @@ SrcRTrim(c) ==
        ELSE c
 SrcTrim(c) == SrcRTrim(SrcLTrim(c))
 
-RECURSIVE Eval(_, _, _, _), EvalItem(_, _, _, _), Bind(_, _, _, _, _, _), SwitchEval(_, _, _, _, _, _)
+RECURSIVE Eval(_, _, _, _), EvalItem(_, _, _, _), Bind(_, _, _, _, _, _), SwitchEval(_, _, _, _, _, _),
+          EvalJoin(_, _, _, _, _)
 
 \* Eval(content, frame, lib, Dev) -> text
 Eval(c, f, lib, Dev) ==
@@ -109,8 +112,15 @@ SwitchEval(v, i, it, f, lib, Dev) ==
        THEN Trim(Eval(it.cases[i].val, f, lib, Dev))
        ELSE SwitchEval(v, i + 1, it, f, lib, Dev)
 
+\* links are transparent containers: their |-separated parts are evaluated in place
+EvalJoin(args, i, f, lib, Dev) ==
+  IF i > Len(args) THEN <<>>
+  ELSE (IF i > 1 THEN <<"|">> ELSE <<>>) \o Eval(args[i], f, lib, Dev) \o EvalJoin(args, i + 1, f, lib, Dev)
+
 EvalItem(it, f, lib, Dev) ==
   CASE it.k = "t" -> it.s
+    [] it.k = "l" -> <<"[[">> \o EvalJoin(it.args, 1, f, lib, Dev) \o <<"]]">>
+    [] it.k = "x" -> <<"[", "http://x.y", "SP">> \o Eval(it.c, f, lib, Dev) \o <<"]">>
     [] it.k = "p" ->
          LET key == Trim(it.name) IN
          IF ~f.top /\ HasKey(f, key) THEN ValueOf(f, key)
@@ -137,6 +147,8 @@ Expand(page, lib, Dev) == Eval(page, TopFrame, lib, Dev)
 RECURSIVE CallsIn(_)
 CallsInItem(it) ==
   CASE it.k = "t" -> {}
+    [] it.k = "l" -> UNION {CallsIn(it.args[i]) : i \in 1..Len(it.args)}
+    [] it.k = "x" -> CallsIn(it.c)
     [] it.k = "p" -> IF it.hasDef THEN CallsIn(it.def) ELSE {}
     [] it.k = "c" -> {it.name} \cup UNION {CallsIn(it.args[i].val) \cup CallsIn(it.args[i].key) : i \in 1..Len(it.args)}
     [] it.k = "if" -> CallsIn(it.c) \cup CallsIn(it.y) \cup CallsIn(it.n)
